@@ -664,7 +664,7 @@ func ruleP11Precedence(p *Prog, r *Report) {
 		if !gs[0].Pol {
 			succ = b.Succs[1]
 		}
-		if len(succ.Preds) == 1 && rejectComplete(succ, func(ret *ssa.Return) string {
+		if rejectComplete(succ, func(ret *ssa.Return) string {
 			if deref(retResult(ret, 0)) != ssa.Value(asc.Params[1]) {
 				return "returns something else"
 			}
